@@ -77,8 +77,14 @@ ProjOfRef(e) == e.k = "proj" /\ (e.e.k = "ref" \/ ProjOfRef(e.e))
 \* (the degenerate chain: a plain alias `Signal show = x;` has no combinator of its own - the producer is x's, labelled x)
 ProjectionLabel(stmts) == \E i \in Lets(stmts) : ProjOfRef(stmts[i].e) \/ stmts[i].e.k = "ref"
 
+(* KF-C20-folded-condition-line: a conditional value whose condition the compiler evaluates itself ((3 > 2) : 7, (k <= 2) : x with *)
+(* an int k) becomes a constant that carries the declared name but no source line in its description.                           *)
+IsIntName(stmts, n) == \E i \in DOMAIN stmts : stmts[i].k = "int" /\ stmts[i].n = n
+IsConstOperand(stmts, x) == x.k = "num" \/ (x.k = "ref" /\ IsIntName(stmts, x.n))
+ConstCondition(stmts) == \E i \in Lets(stmts) : stmts[i].e.k = "cond" /\ stmts[i].e.c.k = "bin" /\ IsConstOperand(stmts, stmts[i].e.c.l) /\ IsConstOperand(stmts, stmts[i].e.c.r)
 KnownFinding1(stmts, clause) ==
-  IF clause = "C20_label" /\ ProjectionLabel(stmts) THEN "KF-C20-projection-label" ELSE KnownFinding0(stmts, clause)
+  IF clause = "C20_label" /\ ProjectionLabel(stmts) THEN "KF-C20-projection-label"
+  ELSE IF clause = "C20_label" /\ ConstCondition(stmts) THEN "KF-C20-folded-condition-line" ELSE KnownFinding0(stmts, clause)
 (* KF-C03-sametype-reader: an operation combines m.read() with an input of the cell's own signal type (p = m.read() * d,   *)
 (* d and m both signal-M): the data input is wired onto the cell's feedback network, the cell sums it in every tick.       *)
 MemType(stmts, m) == IF \E i \in DOMAIN stmts : stmts[i].k = "mem" /\ stmts[i].n = m
